@@ -1093,3 +1093,127 @@ Proof.
   rewrite (started_closed s n g pc ac ag (Inv_reachable i0 c0 ts sched Hc) Hn Hpc).
   apply api_guard_closed; auto.
 Qed.
+
+(* ---------- a returned GracefulClose caller has waited for everything ---------- *)
+
+Definition tok2 (cd gd : bool) (t : thread) : Prop :=
+  match t with
+  | Closer g CGraceful ac _ => ac = true -> cd = true
+  | Closer g CDone _ _ => g = true -> cd = true /\ gd = true
+  | _ => True
+  end.
+
+Definition Inv2 (s : state) : Prop :=
+  Inv s /\ Forall (tok2 (closeDone s) (gracefulDone s)) (threads s) /\
+  (gracefulDone s = true -> closeDone s = true).
+
+Lemma tok2_mono cd gd cd' gd' t :
+  tok2 cd gd t -> (cd = true -> cd' = true) -> (gd = true -> gd' = true) -> tok2 cd' gd' t.
+Proof.
+  intros H H1 H2. destruct t as [g pc ac ag|]; simpl in *; auto.
+  destruct pc; simpl in *; auto. intros Hg. destruct (H Hg). auto.
+Qed.
+
+Lemma ucs_commit_flags s v :
+  closeDone (ucs_commit s v) = closeDone s /\ gracefulDone (ucs_commit s v) = gracefulDone s /\
+  threads (ucs_commit s v) = threads s.
+Proof. unfold ucs_commit. destruct (pcs_eqb (connState s) v); simpl; auto. Qed.
+
+Lemma Inv2_init i0 c0 ts : c0 <> PcClosed -> Inv2 (init_with i0 c0 ts).
+Proof.
+  intros Hc. split; [apply Inv_init; auto|]. split.
+  - simpl. induction ts as [|t r IH]; simpl; constructor; auto. destruct t; simpl; auto.
+  - simpl. discriminate.
+Qed.
+
+Lemma Inv2_step s tid s' : Inv2 s -> step s tid = Some s' -> Inv2 s'.
+Proof.
+  intros (I & F & G) H. split; [eapply Inv_step; eauto|].
+  unfold step in H.
+  destruct (nth_error (threads s) tid) as [t|] eqn:Hn; [|discriminate].
+  pose proof (Forall_nth _ _ _ _ (inv_threads s I) Hn) as Ht. unfold tok_s in Ht.
+  pose proof (Forall_nth _ _ _ _ F Hn) as Ht2.
+  destruct (ucs_commit_flags s PcClosed) as (U1 & U2 & U3).
+  destruct t as [g pc ac ag | i d pc].
+  - destruct pc; cbn [step_closer] in H.
+    + inversion H; subst s'; clear H. simpl. split; auto.
+      eapply Forall_upd; [exact F| |]; simpl; auto.
+    + destruct ac; [destruct (negb g) eqn:Eg; [|destruct ag]|]; inversion H; subst s'; clear H;
+        simpl; (split; [eapply Forall_upd; [exact F| |]; simpl; auto|auto]).
+      intros Hg. destruct g; discriminate.
+    + destruct (gracefulDone s) eqn:Egd; inversion H; subst s'; clear H. simpl. split; auto.
+      eapply Forall_upd; [exact F| |]; simpl; auto. rewrite Egd. auto.
+    + destruct (closeDone s) eqn:Ecd; inversion H; subst s'; clear H. simpl. split; auto.
+      eapply Forall_upd; [exact F| |]; simpl; auto. rewrite Ecd. auto.
+    + destruct (ucsLock s); inversion H; subst s'; clear H. simpl. split; auto.
+      eapply Forall_upd; [exact F| |]; simpl; auto.
+    + simpl in Ht. destruct Ht as (_ & Hac & Hv). subst ac.
+      destruct (ucs_commit_flags s v) as (V1 & V2 & V3).
+      destruct g; inversion H; subst s'; clear H; simpl; rewrite ?V1, ?V2, ?V3.
+      * split; auto. eapply Forall_upd; [exact F| |]; simpl; auto. discriminate.
+      * split.
+        -- eapply Forall_upd; [exact F| |]; simpl; auto.
+           ++ intros m u Hm Hu Hp. eapply tok2_mono; eauto.
+           ++ discriminate.
+        -- auto.
+    + simpl in Ht. destruct Ht as (_ & Hg & Hag & _). subst g.
+      destruct ac; inversion H; subst s'; clear H; simpl.
+      * simpl in Ht2. specialize (Ht2 eq_refl). split.
+        -- eapply Forall_upd; [exact F| |]; simpl; auto.
+           intros m u Hm Hu Hp. eapply tok2_mono; eauto.
+        -- auto.
+      * split.
+        -- eapply Forall_upd; [exact F| |]; simpl; auto.
+           intros m u Hm Hu Hp. eapply tok2_mono; eauto.
+        -- auto.
+    + discriminate.
+  - destruct pc; cbn [step_updater] in H.
+    + destruct (ucsLock s); inversion H; subst s'; clear H. simpl. split; auto.
+      eapply Forall_upd; [exact F| |]; simpl; auto.
+    + destruct (ucs_commit_flags s v) as (V1 & V2 & V3).
+      inversion H; subst s'; clear H. simpl. rewrite V1, V2, V3. split; auto.
+      eapply Forall_upd; [exact F| |]; simpl; auto.
+    + discriminate.
+Qed.
+
+Lemma Inv2_run s sched : Inv2 s -> Inv2 (run s sched).
+Proof.
+  revert s; induction sched as [|tid r IH]; intros s I; simpl; auto.
+  apply IH. unfold step_skip. destruct (step s tid) eqn:E; auto. eapply Inv2_step; eauto.
+Qed.
+
+(* in ANY reachable state: a GracefulClose caller that has returned saw the
+   teardown and the graceful-only steps completed, both done-channels closed,
+   and the connection state closed *)
+Lemma graceful_returned_waited s n ac ag :
+  Inv2 s -> nth_error (threads s) n = Some (Closer true CDone ac ag) ->
+  closeDone s = true /\ gracefulDone s = true /\ teardowns s = 1 /\ gracefulOps s = 1 /\
+  sigClosed s = true /\ connState s = PcClosed.
+Proof.
+  intros (I & F & G) Hn.
+  pose proof (Forall_nth _ _ _ _ F Hn) as H2. simpl in H2. destruct (H2 eq_refl) as [Hcd Hgd].
+  pose proof (inv_cdone s I) as Icd. rewrite Hcd in Icd. simpl in Icd.
+  destruct (count_pos_ex is_first_done (threads s)) as (m & f & Hm & Hf); [lia|].
+  destruct f as [g' pc' ac' ag'|]; simpl in Hf; try discriminate.
+  destruct pc'; try discriminate. destruct ac'; try discriminate.
+  pose proof (Forall_nth _ _ _ _ (inv_threads s I) Hm) as Hok. unfold tok_s in Hok.
+  simpl in Hok. destruct Hok as (_ & Hcsc). specialize (Hcsc eq_refl). apply pcs_eqb_eq in Hcsc.
+  pose proof (count_ge torn _ _ _ Hm eq_refl) as T1. rewrite (inv_torn s I) in T1.
+  pose proof (teardown_le_1 s I) as T2.
+  pose proof (inv_gdone s I) as Igd. rewrite Hgd in Igd. simpl in Igd.
+  pose proof (inv_gops s I) as Igo.
+  assert (teardowns s = 1) as Ht1 by lia.
+  repeat split; auto; try lia.
+  rewrite (inv_sig s I), Ht1. reflexivity.
+Qed.
+
+Lemma graceful_waits_reach i0 c0 ts sched n ac ag :
+  c0 <> PcClosed ->
+  let s := reach i0 c0 ts sched in
+  nth_error (threads s) n = Some (Closer true CDone ac ag) ->
+  closeDone s = true /\ gracefulDone s = true /\ teardowns s = 1 /\ gracefulOps s = 1 /\
+  sigClosed s = true /\ connState s = PcClosed.
+Proof.
+  intros Hc s Hn. eapply graceful_returned_waited; eauto.
+  apply Inv2_run. apply Inv2_init; auto.
+Qed.
